@@ -34,7 +34,7 @@ def cfg_fn(rng):
     return cfg
 
 
-WEIGHTS = {"update_attrs": 0.2, "add_edge": 5, "delete_edge": 4, "delete_node": 4}
+WEIGHTS = {"scenario": 0.6, "update_attrs": 0.2, "add_edge": 5, "delete_edge": 4, "delete_node": 4}
 
 
 def plan(tier, seed):
